@@ -153,3 +153,45 @@ func H_C08_AddrTable() {
 		vCover("c08.addr.conflict")
 	}
 }
+
+func init() {
+	vRegister("H_C08_LeaveWindow", H_C08_LeaveWindow)
+}
+
+// C08, Leave racing an accusation. Leave raises its flag, reads the local incarnation under the node lock,
+// releases the lock and only then calls deadNode. An accusation handled in that window (here laid out
+// step by step, so that it replays deterministically) must not strand the node: once any Leave call
+// returns nil with a live peer around, the node has marked itself Left and queued its departure.
+func H_C08_LeaveWindow() {
+	conf := vBaseConfig()
+	f := vNewML(conf)
+	m := f.m
+	selfInc := vU32()
+	vAssume(selfInc < 0xFFFFFFF0)
+	me := f.vAddSelf(selfInc, nil)
+	f.vAddConcreteAlive(vPeerA, 2)
+
+	// first half of Leave (memberlist.go): flag, then the incarnation read
+	m.leave.Store(1)
+	readInc := me.Incarnation
+	// the window: a peer's accusation about us is handled
+	accInc := vU32()
+	vAssume(accInc != 0xFFFFFFFF)
+	if vPick(2) == 0 {
+		m.suspectNode(&suspect{Incarnation: accInc, Node: vSelf, From: vPeerA})
+	} else {
+		m.deadNode(&dead{Incarnation: accInc, Node: vSelf, From: vPeerA})
+	}
+	// second half of Leave: the self-signed dead with the incarnation read earlier
+	m.deadNode(&dead{Incarnation: readInc, Node: vSelf, From: vSelf})
+
+	// the application (or a retry loop) calls Leave again
+	err := m.Leave(20 * time.Millisecond)
+	if err == nil {
+		vAssert(me.State == StateLeft || me.State == StateDead, "c08.window.leave-nil-implies-departed")
+		mb := f.vQueuedFor(vSelf)
+		vAssert(mb != nil && mb.msg[0] == byte(deadMsg), "c08.window.departure-queued")
+		vAssert(!f.vIsMember(vSelf), "c08.window.not-listed")
+	}
+	vCover("c08.window")
+}
